@@ -6,7 +6,7 @@ const (
 	floatExpr      = `[+-]?\d+(?:\.\d+)?(?:[eE][+-]?\d+)?`
 	validNameExpr  = `[\w\-_ ]+`
 	validIDExpr    = `[\w\-_]+`
-	constraintExpr = `{[drxyz ]*}`
+	constraintExpr = `{\s*(?:(?:dx|dy|rz)\s+)*(?:dx|dy|rz)?\s*}`
 )
 
 const (
